@@ -582,7 +582,7 @@ def _ref_attribute_definition(
     if adef is not None:
         reftext = f"_{adef.uuid.upper()}--{type}"
     else:
-        reftext = f"NULLTYPE--{type}"
+        reftext = f"_NULL-ATTRIBUTE-DEFINITION--{type}"
     definition = etree.Element("DEFINITION")
     ref = etree.Element(f"ATTRIBUTE-DEFINITION-{type}-REF")
     ref.text = reftext
